@@ -10,7 +10,8 @@ pre-state, the configuration constants and the op's extra inputs:
 * `epoch <sub>`               → one epoch sub-transition (or `all` = `process_epoch`) on the pre-state;
                                 for `justification`, `registry`, `slashings`, `effective_balance`, `all` the answer is
                                 `<code-shaped model M> | <specification S>`
-* `slots target=<slot> sroots=<slot>:<root>,…`  → `process_slots` incl. fork upgrades
+* `slots target=<slot> sroots=<slot>:<root>,…`  → `process_slots` incl. fork upgrades, as `<M> | <S>` (M: the same slot
+                                loop with the code-shaped `ProcessEpoch` pipeline at the epoch boundaries)
 * `upgrade`                   → the fork upgrade due at the pre-state's slot (if any)
 
 Extra inputs supplied by the Go side (documented assumptions of the evidence):
@@ -133,7 +134,10 @@ def c02Line (line : String) : String :=
       | none => "bad-op"
     | ["slots"] =>
       match kv.get? "target" >>= (·.toNat?), kv.get? "sroots" >>= parseRoots with
-      | some target, some roots => out (process_slots cfg agg (rootOracleOf roots) s target)
+      | some target, some roots =>
+        -- model column: `common.ProcessSlots` with the code-shaped `ProcessEpoch` pipeline at the epoch boundaries
+        out (process_slots_with Impl.processEpochM cfg agg (rootOracleOf roots) s target) ++ " | " ++
+          out (process_slots cfg agg (rootOracleOf roots) s target)
       | _, _ => "bad-op"
     | ["upgrade"] => out (upgrade_maybe cfg agg s)
     | _ => "bad-op"
